@@ -161,8 +161,8 @@ func newC11Driver(client string) drv.Real {
 }
 
 type c11Info struct {
-	overlaps   int
-	sharedKeys bool
+	overlaps     int
+	sharedKeys   bool
 	inconclusive string
 }
 
